@@ -19,7 +19,9 @@ import (
 type Sched struct {
 	Dec      []uint16 `json:"dec"`
 	TailSeed uint64   `json:"tail_seed"`
-	Preempt  int      `json:"preempt"` // percent chance to switch goroutine per step in the tail
+	Preempt  int      `json:"preempt"`             // percent chance to switch goroutine per step in the tail
+	ClockPct int      `json:"clock_pct,omitempty"` // percent chance per step to advance the simulated clock
+	ClockMs  []int    `json:"clock_ms,omitempty"`  // candidate advances in milliseconds
 }
 
 type parkedG struct {
@@ -57,10 +59,14 @@ type Engine struct {
 	Switches   uint64
 	ClockAdv   time.Duration
 	fairnessK  int
+	ClockJumps uint64
 	Forced     uint64
 	idleRounds int
 
 	rootGid int64
+	// Sequential forces the default policy (no decision is consumed, no clock
+	// jump): used for the deterministic pre-fill phase.
+	Sequential bool
 
 	// callbacks (called in the goroutine that hit the hook)
 	OnEvent   func(gid int64, kind string, a, b uint64, key, val []byte)
@@ -211,6 +217,20 @@ func (e *Engine) point(site string, id uint64) {
 	<-p.ch
 }
 
+// SetGroups changes the enabled schedule-point roles (nil = all).
+func (e *Engine) SetGroups(groups []string) {
+	e.mu.Lock()
+	defer e.mu.Unlock()
+	if groups == nil {
+		e.enabled = nil
+		return
+	}
+	e.enabled = map[string]bool{}
+	for _, g := range groups {
+		e.enabled[g] = true
+	}
+}
+
 // Point lets harness code (clients) yield.
 func (e *Engine) Point(site string) { e.point(site, 0) }
 
@@ -262,7 +282,7 @@ func (e *Engine) nextDecision(n int) (int, bool) {
 }
 
 func (e *Engine) choose(site string, n int) int {
-	if !e.active.Load() || n <= 0 {
+	if !e.active.Load() || n <= 0 || e.Sequential {
 		return -1
 	}
 	e.mu.Lock()
@@ -276,6 +296,16 @@ func (e *Engine) choose(site string, n int) int {
 	}
 	e.SiteHits["choose:"+site]++
 	return d
+}
+
+// sleep advances the simulated clock by d. When the root's own timer fires,
+// other timers due at the same instant may not have been run yet (their
+// goroutines still count as durably blocked, so synctest.Wait would return
+// too early); one more nanosecond of sleep lets every timer due "now" fire and
+// its goroutine run to its next block before the root continues.
+func (e *Engine) sleep(d time.Duration) {
+	time.Sleep(d)
+	time.Sleep(time.Nanosecond)
 }
 
 // Activate turns scheduling on; it must be called by the root goroutine before
@@ -323,10 +353,29 @@ func (e *Engine) Run(done func() bool, maxSteps uint64) RunResult {
 			}
 			idleSim += q
 			e.ClockAdv += q
-			time.Sleep(q)
+			if e.KeepTrace {
+				e.TraceLog = append(e.TraceLog, fmt.Sprintf("idle +%v at %v", q, time.Now().UnixNano()))
+			}
+			e.sleep(q)
 			continue
 		}
 		idleSim = 0
+		if !e.Sequential && e.sched.ClockPct > 0 && len(e.sched.ClockMs) > 0 {
+			if d, ok := e.nextDecision(100); ok && d < e.sched.ClockPct {
+				i, _ := e.nextDecision(len(e.sched.ClockMs))
+				adv := time.Duration(e.sched.ClockMs[i]) * time.Millisecond
+				e.Decisions++
+				e.ClockJumps++
+				e.ClockAdv += adv
+				e.mix("clock")
+				if e.KeepTrace {
+					e.TraceLog = append(e.TraceLog, fmt.Sprintf("clock +%v", adv))
+				}
+				e.mu.Unlock()
+				e.sleep(adv)
+				continue
+			}
+		}
 		pick := e.decideLocked(elig)
 		// remove from parked
 		for i, p := range e.parked {
@@ -344,7 +393,7 @@ func (e *Engine) Run(done func() bool, maxSteps uint64) RunResult {
 		e.mix(pick.name)
 		e.mix(pick.site)
 		if e.KeepTrace {
-			e.TraceLog = append(e.TraceLog, fmt.Sprintf("%d run %s @ %s", e.Steps, pick.name, pick.site))
+			e.TraceLog = append(e.TraceLog, fmt.Sprintf("%d run %s @ %s t=%d", e.Steps, pick.name, pick.site, time.Now().UnixNano()%1000000000000))
 		}
 		e.mu.Unlock()
 		close(pick.ch)
@@ -387,6 +436,16 @@ func (e *Engine) decideLocked(elig []*parkedG) *parkedG {
 		e.Forced++
 	case len(elig) == 1:
 		pick = elig[0]
+	case e.Sequential:
+		for _, p := range elig {
+			if p.name == e.last {
+				pick = p
+				break
+			}
+		}
+		if pick == nil {
+			pick = elig[0]
+		}
 	default:
 		inExplicit := e.di < len(e.sched.Dec)
 		if !inExplicit && e.rng != nil {
